@@ -34,6 +34,10 @@ W = [
     ('addtosetfalsy', '$addToSet turns falsy values (0, "", false, [], {}) into null (`val or '
      'None`)', D, [], [{'$group': {'_id': None, 's': {'$addToSet': '$a'}}}],
      [{'s': [5, 0, 7], '_id': None}]),
+    ('addtosetboolnum', '$addToSet tells its values apart with Python == : true and 1 (false and '
+     '0) are one value; MongoDB keeps a boolean and a number apart',
+     [{'_id': 0, 'a': True}, {'_id': 1, 'a': 1}], [],
+     [{'$group': {'_id': None, 's': {'$addToSet': '$a'}}}], [{'s': [True, 1], '_id': None}]),
     ('firstmissing', '$first / $last skip the documents in which the expression is missing '
      '(MongoDB yields null for them)',
      [{'_id': 0}, {'_id': 1, 'a': 7}], [], [{'$group': {'_id': None, 'f': {'$first': '$a'}}}],
